@@ -881,11 +881,29 @@ class C13(E2EProp):
     cone = ["Properties/C13.vo"]
     prop_file = "Properties/C13.v"
     theorems = ["C13_static"]
-    partial = ["C13_none (unrestricted = false -> no command logged) on the model: #run and shell filters are not yet in the model; dynamic routes are checked on the implementation with a marker file"]
-    needs_driver = False
+    theorems = ["C13_static", "C13_no_command_without_x", "C13_with_x"]
+    partial = []
+    assumptions = ["the model of #run, X ftag -shell/-gsub, Ft, Bf..Ef, If -as-is is the code (stream S-e2e-run: bytes and diagnostics, restricted and -x, with the commands echo, cat, true whose output the model knows)",
+                   "what a started command prints is an oracle (Model/Ctl.run_cmd); that the Go standard library starts no process of its own accord is assumed",
+                   "the SSA dominance computation of the translator"]
+    RUNFAM = [".#run echo a b", ".#run \"echo c  d\"", ".#run true", ".#run nosuchcmd", ".#run", ".X ftag -t c -shell cat", ".X ftag -t e -shell echo x", ".X ftag -t g -gsub /a/b/cc/d",
+              ".X ftag -f latex -t l -shell cat", ".Ft -t c some text", ".Ft -t g abcca", ".Ft -t e y", ".Ft -t l z", ".Ft -t nosuch t", ".Bf -t c", ".Bf -t g", "raw a cc", ".Ef", ".Ef -ns",
+              ".If -as-is -t c inc.txt", ".If -as-is -t g inc.txt", ".If inc.frundis", "t", ".Bm", ".Em"]
+
+    def plan(self, tier, rng):
+        n = T(tier, 2, 3)
+        files = [("inc.txt", "a <b> cc\n"), ("inc.frundis", ".#run echo included\n.Ft -t c in\n")]
+        docs = [list(s) for k in range(1, n + 1) for s in itertools.product(self.RUNFAM, repeat=k)]
+        if tier == Q:
+            docs += [[rng.choice(self.RUNFAM) for _ in range(rng.randint(3, 7))] for _ in range(2000)]
+        out = []
+        for fm in ("x0", "x0x", "l0x", "m0x", "k0x", "l0"):
+            sub = docs if fm in ("x0", "x0x") else docs[:: 4]
+            out.append(("S-e2e-run-" + fm, [e2e.case_of(fm, e2e.doc_of(d), files) for d in sub], "documents over #run, shell and gsub filters, filter lines and blocks, as-is and plain includes; format %s, %s" % (fm[0], "-x" if fm.endswith("x") else "restricted")))
+        return out
 
     def streams(self, tier, rng):
-        return [run_stream(tier, rng)]
+        return E2EProp.streams(self, tier, rng) + [run_stream(tier, rng)]
 
 
 def run_stream(tier, rng):
